@@ -3,44 +3,14 @@ open BinNums
 open Datatypes
 open Drv
 
-(* UTF-8 decoding as Go's utf8.DecodeRuneInString does it (invalid byte => U+FFFD, width 1) *)
-let decode_utf8 (s : string) : int list =
-  let n = Str_.length s in
-  let b i = Char.code s.[i] in
-  let cont i = i < n && (b i) land 0xC0 = 0x80 in
-  let rec go i acc =
-    if i >= n then L.rev acc else
-    let c = b i in
-    if c < 0x80 then go (i + 1) (c :: acc)
-    else if c >= 0xC2 && c <= 0xDF && cont (i + 1) then
-      go (i + 2) ((((c land 0x1F) lsl 6) lor (b (i + 1) land 0x3F)) :: acc)
-    else if c >= 0xE0 && c <= 0xEF && cont (i + 1) && cont (i + 2) then begin
-      let r = ((c land 0x0F) lsl 12) lor ((b (i + 1) land 0x3F) lsl 6) lor (b (i + 2) land 0x3F) in
-      if r < 0x800 || (r >= 0xD800 && r <= 0xDFFF) then go (i + 1) (0xFFFD :: acc) else go (i + 3) (r :: acc)
-    end
-    else if c >= 0xF0 && c <= 0xF4 && cont (i + 1) && cont (i + 2) && cont (i + 3) then begin
-      let r = ((c land 0x07) lsl 18) lor ((b (i + 1) land 0x3F) lsl 12) lor ((b (i + 2) land 0x3F) lsl 6)
-              lor (b (i + 3) land 0x3F) in
-      if r < 0x10000 || r > 0x10FFFF then go (i + 1) (0xFFFD :: acc) else go (i + 4) (r :: acc)
-    end
-    else go (i + 1) (0xFFFD :: acc) in
-  go 0 []
-
+(* UTF-8 decoding and encoding are the extracted Model/Utf8.v (the model of utf8.DecodeRuneInString as lexer.next
+   uses it, and of utf8.EncodeRune): bytes in, runes out; theorems C02_decode_* are about these very functions *)
+let bytes_of_string (s : string) = L.init (Str_.length s) (fun i -> n_of_int (Char.code s.[i]))
+let decode_utf8 (s : string) : int list = L.map int_of_n (Utf8.decode (bytes_of_string s))
 let encode_utf8 (rs : int list) : string =
+  let bs = Utf8.encode (L.map n_of_int rs) in
   let b = Buffer.create 16 in
-  L.iter (fun r ->
-    if r < 0x80 then Buffer.add_char b (Char.chr r)
-    else if r < 0x800 then begin
-      Buffer.add_char b (Char.chr (0xC0 lor (r lsr 6))); Buffer.add_char b (Char.chr (0x80 lor (r land 0x3F))) end
-    else if r < 0x10000 then begin
-      Buffer.add_char b (Char.chr (0xE0 lor (r lsr 12)));
-      Buffer.add_char b (Char.chr (0x80 lor ((r lsr 6) land 0x3F)));
-      Buffer.add_char b (Char.chr (0x80 lor (r land 0x3F))) end
-    else begin
-      Buffer.add_char b (Char.chr (0xF0 lor (r lsr 18)));
-      Buffer.add_char b (Char.chr (0x80 lor ((r lsr 12) land 0x3F)));
-      Buffer.add_char b (Char.chr (0x80 lor ((r lsr 6) land 0x3F)));
-      Buffer.add_char b (Char.chr (0x80 lor (r land 0x3F))) end) rs;
+  L.iter (fun x -> Buffer.add_char b (Char.chr (int_of_n x))) bs;
   Buffer.contents b
 
 let string_of_hex h = if h = "-" then "" else
@@ -97,5 +67,18 @@ let do_specparse toks =
        Buffer.contents b)
   | _ -> "bad-case"
 
+(* the lexer's rune loop on the bytes of a file: rune:width:line:col:tcol per call of next() until eof *)
+let do_lextrace toks =
+  match toks with
+  | [h] ->
+    let bs = bytes_of_string (string_of_hex h) in
+    let (tr, ws) = Utf8.lexer_trace bs in
+    if L.length tr <> L.length ws then "model-trace-length-mismatch" else
+    if tr = [] then "trace -" else
+    "trace " ^ Str_.concat "," (L.map2 (fun (r, ((ln, cl), tc)) w ->
+       Printf.sprintf "%d:%d:%s:%s:%s" (int_of_n r) (int_of_nat w) (string_of_z ln) (string_of_z cl) (string_of_z tc)) tr ws)
+  | _ -> "bad-case"
+
 let () = register "parse" do_parse
+let () = register "lextrace" do_lextrace
 let () = register "specparse" do_specparse
